@@ -40,6 +40,8 @@ def fclose(a, b, tol=1e-9):
 
 
 def relclose(f, q, tol=1e-9):
+    if f is None or f != f or f in (float("inf"), float("-inf")):
+        return False
     q = Fraction(q)
     return abs(Fraction(float(f)) - q) <= Fraction(tol) * max(abs(q), Fraction(1, 10 ** 6))
 
@@ -76,6 +78,13 @@ def make_changer():
             self.pre = snapshot(self.linked.a, self)
             super().axiallyExpandAssembly()
 
+    def num(v):
+        """a number read from the real code; NaN (which fails every clause) instead of an exception for odd values"""
+        try:
+            return float(v)
+        except Exception:  # noqa
+            return float("nan")
+
     def rep_nuclide(c):
         nd = c.getNumberDensities()
         for k in sorted(nd):
@@ -92,22 +101,34 @@ def make_changer():
             tgt = []
             for ic, c in enumerate(sol):
                 nuc = rep_nuclide(c)
-                d = {"name": c.name, "nuc": nuc, "nd": float(c.getNumberDensity(nuc)) if nuc else 0.0,
-                     "area": float(c.getArea()), "mass": float(c.getMass()),
+                d = {"name": c.name, "nuc": nuc, "nd": num(c.getNumberDensity(nuc)) if nuc else 0.0,
+                     "area": num(c.getArea()), "mass": num(c.getMass()),
                      "h": getattr(c, "height", None), "zb": getattr(c, "zbottom", None), "zt": getattr(c, "ztop", None)}
                 if chg is not None:
-                    d["g"] = float(chg.expansionData.getExpansionFactor(c))
+                    d["g"] = num(chg.expansionData.getExpansionFactor(c))
                     low = chg.linked.linkedComponents[c].lower
                     d["lower"] = None if low is None else prev.index(low)
                     if chg.expansionData.isTargetComponent(c):
                         tgt.append(ic)
                 comps.append(d)
-            blocks.append({"type": b.getType(), "h": float(b.getHeight()), "zb": float(b.p.zbottom), "zt": float(b.p.ztop),
+            blocks.append({"type": b.getType(), "h": num(b.getHeight()), "zb": num(b.p.zbottom), "zt": num(b.p.ztop),
                            "comps": comps, "targets": tgt})
             prev = sol
         return blocks
 
     return RecordingChanger(detailedAxialExpansion=True), snapshot, iterSolidComponents
+
+
+def safe_request(ctx, case, pre, req, chk, payload):
+    """append the model request for this case unless a value read from the code is not a finite number"""
+    try:
+        line = request(pre)
+    except Exception as e:  # noqa
+        ctx.fail("expansion-state-not-evaluable", "the state before an expansion consists of finite numbers", case,
+                 observed=repr(e)[:200])
+        return
+    req.append(line)
+    chk.append(payload)
 
 
 def request(pre):
@@ -199,6 +220,40 @@ def oracle_step(ctx, case, a, pre, post, m_before, H0, top0, mode, f9_budget):
                          dict(case, block=ib, comp=c["name"]), observed=m1, expected=m0)
 
 
+def oracle_linkage(ctx, case, a, chg):
+    """axial linkage is MUTUAL and symmetric: A is linked above B  <=>  B is linked below A, for every pair of
+    solid components of adjacent blocks, through AssemblyAxialLinkage.linkedComponents and with the arguments of
+    areAxiallyLinked swapped"""
+    from armi.reactor.converters.axialExpansionChanger import assemblyAxialLinkage as aal
+    from armi.reactor.converters.axialExpansionChanger.expansionData import iterSolidComponents
+
+    links = chg.linked.linkedComponents
+    blocks = list(a)
+    for ib in range(1, len(blocks)):
+        ups, los = list(iterSolidComponents(blocks[ib])), list(iterSolidComponents(blocks[ib - 1]))
+        for c in ups:
+            for d in los:
+                info = dict(case, block=ib, upper=[type(c).__name__, c.name], lower=[type(d).__name__, d.name])
+                try:
+                    f1, f2 = bool(aal.areAxiallyLinked(c, d)), bool(aal.areAxiallyLinked(d, c))
+                    g1 = bool(aal.AssemblyAxialLinkage.areAxiallyLinked(c, d))
+                except Exception as e:  # noqa
+                    ctx.fail("linkage-check-raises", "areAxiallyLinked answers for every pair of solid components", info,
+                             observed=repr(e)[:200])
+                    continue
+                if f1 != f2 or f1 != g1:
+                    ctx.fail("linkage-symmetric", "areAxiallyLinked(A, B) == areAxiallyLinked(B, A)", info,
+                             observed=[f1, f2, g1])
+                down = c in links and links[c].lower is d
+                up = d in links and links[d].upper is c
+                if down != up:
+                    ctx.fail("linkage-mutual", "A is linked above B exactly when B is linked below A", info,
+                             observed={"upper.lower is lower": down, "lower.upper is upper": up})
+                if down and not f1:
+                    ctx.fail("linkage-consistent", "a stored link is a pair that areAxiallyLinked accepts", info,
+                             observed=[down, f1])
+
+
 def masses(snap):
     return [[c["mass"] for c in b["comps"]] for b in snap]
 
@@ -273,10 +328,11 @@ def run_sequences(ctx, nseq, collect):
                 if any(len(b["targets"]) > 1 for b in pre):
                     raise common.Infra("a block with more than one target component: outside the model")
                 oracle_step(ctx, case, a, pre, post, masses(pre), H0, top0, sub, f9_budget)
+                if len(hist) == 1:
+                    oracle_linkage(ctx, case, a, chg)
                 if sub != "thermal" and masses(pre) != masses(before):
                     ctx.fail("prescribed-expansion-changes-mass-before-restacking", "nothing but the re-stacking changes masses", case)
-                req.append(request(pre))
-                chk.append((case, pre, post, [float(x) for x in a.spatialGrid._bounds[2]]))
+                safe_request(ctx, case, pre, req, chk, (case, pre, post, [float(x) for x in a.spatialGrid._bounds[2]]))
                 ctx.count(f"expansion mode {sub}")
                 ctx.case(("exp", a0.getType(), tuple(hist), tuple(case.get("percents", case.get("temperature", [])))),
                          nontrivial=True, sample={"case": {k: v for k, v in case.items() if k != "percents"},
@@ -406,6 +462,7 @@ def one_step(ctx, collect, a, a0, chg, snapshot, iterSolid, case, H0, top0, f9_b
         return None
     pre, post = chg.pre, snapshot(a)
     oracle_step(ctx, case, a, pre, post, masses(pre), H0, top0, "percomp", f9_budget)
+    oracle_linkage(ctx, case, a, chg)
     if mode == "isothermal":
         for ib, b in enumerate(a[:-1]):
             for ic, c in enumerate(iterSolid(b)):
@@ -419,8 +476,7 @@ def one_step(ctx, collect, a, a0, chg, snapshot, iterSolid, case, H0, top0, f9_b
                 if float(c.temperatureInC) != float(payload):
                     ctx.fail("thermal-temperature-applied", "components take the block-average temperature",
                              dict(case, block=ib, comp=c.name), observed=float(c.temperatureInC), expected=payload)
-    req.append(request(pre))
-    chk.append((case, pre, post, [float(x) for x in a.spatialGrid._bounds[2]]))
+    safe_request(ctx, case, pre, req, chk, (case, pre, post, [float(x) for x in a.spatialGrid._bounds[2]]))
     ctx.count(f"expansion mode {case['mode']}")
     return pre, post
 
@@ -540,8 +596,133 @@ def run_small_steps(ctx, collect):
                          {"assembly": a0.getType(), "mode": "tiny-" + kind, "steps": nsteps}, observed=bounds)
 
 
+# --------------------------------------------------------------------------- assemblies built through the real API
+BUILT_KINDS = ("fuel", "holedslab", "slab", "holedpins", "pinslab")
+BUILT_STACKS = [
+    ["fuel", "holedslab"],          # derived HoledHexagon target directly above a base-class Hexagon (duct) that is not the lower target
+    ["fuel", "holedpins"],          # derived HexHoledCircle target above base-class Circles (fuel = lower target, clad is not)
+    ["pinslab", "holedpins"],       # derived HexHoledCircle above a base-class Circle that IS the lower target
+    ["slab", "holedslab"],          # derived above base that IS the lower target
+    ["holedslab", "slab"],          # base class above derived
+    ["holedpins", "pinslab"],       # base class above derived
+    ["holedslab", "holedslab"], ["slab", "slab"], ["fuel", "fuel"], ["holedpins", "holedpins"],   # same-type controls
+    ["fuel", "holedslab", "slab", "holedpins"],
+    ["slab", "fuel", "fuel", "holedslab", "holedslab"],
+]
+
+
+def build_assembly(kinds, heights):
+    """HexAssembly / HexBlock / components through the public constructors (nothing from the blueprint fixtures)"""
+    from armi.reactor import grids
+    from armi.reactor.assemblies import HexAssembly
+    from armi.reactor.blocks import HexBlock
+    from armi.reactor.components import DerivedShape
+    from armi.reactor.components.basicShapes import Circle, Hexagon
+    from armi.reactor.components.complexShapes import HexHoledCircle, HoledHexagon
+
+    T = {"Tinput": 25.0, "Thot": 400.0}
+
+    def blk(kind, h):
+        b = HexBlock(kind, height=h)
+        if kind == "fuel":
+            comps = [Circle("fuel", "UZr", od=0.76, id=0.0, mult=127.0, **T), Circle("clad", "HT9", od=0.80, id=0.77, mult=127.0, **T)]
+            tgt = "fuel"
+        elif kind == "holedslab":
+            comps = [HoledHexagon("reflector", "HT9", op=15.2, holeOD=0.8, nHoles=127, mult=1.0, **T)]
+            tgt = "reflector"
+        elif kind == "slab":
+            comps = [Hexagon("shield", "HT9", op=15.2, ip=0.0, mult=1.0, **T)]
+            tgt = "shield"
+        elif kind == "holedpins":
+            comps = [HexHoledCircle("reflector", "HT9", od=0.80, holeOP=0.3, mult=127.0, **T)]
+            tgt = "reflector"
+        else:  # pinslab: solid steel pins
+            comps = [Circle("shield", "HT9", od=0.80, id=0.0, mult=127.0, **T)]
+            tgt = "shield"
+        comps.append(Hexagon("duct", "HT9", op=16.0, ip=15.3, mult=1.0, **T))
+        comps.append(DerivedShape("coolant", "Sodium", **T))
+        comps.append(Hexagon("intercoolant", "Sodium", op=17.0, ip=16.0, mult=1.0, **T))
+        for c in comps:
+            b.add(c)
+        b.setType("fuel" if kind == "fuel" else "reflector")
+        b.getVolumeFractions()
+        b.p.axialExpTargetComponent = tgt
+        return b
+
+    a = HexAssembly("builtAssembly")
+    a.spatialGrid = grids.AxialGrid.fromNCells(numCells=1)
+    a.spatialGrid.armiObject = a
+    for k, h in zip(kinds, heights):
+        a.add(blk(k, h))
+    d = HexBlock("dummy", height=heights[-1])
+    d.add(Hexagon("dummy coolant", "Sodium", op=17.0, ip=0.0, mult=1.0, **T))
+    d.getVolumeFractions()
+    d.setType("dummy")
+    a.add(d)
+    a.calculateZCoords()
+    a.reestablishBlockOrder()
+    return a
+
+
+def run_built(ctx, collect):
+    """subclassed shapes stacked on base-class shapes (and the reverse, and same-type controls): differential
+    expansion (fuel +5 %, steel unchanged), then random per-component / uniform / isothermal steps"""
+    stacks = [list(k) for k in BUILT_STACKS]
+    for _ in range(ctx.pick(6, 60)):
+        while True:     # a solid-pin block next to a fuel block would be an ambiguous blueprint (two Circles over one)
+            st = [ctx.rng.choice(BUILT_KINDS) for _ in range(ctx.rng.randint(2, 5))]
+            if not any({x, y} == {"fuel", "pinslab"} for x, y in zip(st, st[1:])):
+                break
+        stacks.append(st)
+    for kinds in stacks:
+        heights = [ctx.rng.choice([8.0, 16.0, 20.5, 32.0]) for _ in kinds] + [16.0]
+        try:
+            with common.quiet():
+                a = build_assembly(kinds, heights)
+        except Exception as e:  # noqa
+            raise common.Infra(f"cannot build the test assembly {kinds}: {e!r}")
+        a0 = a
+        chg, snapshot, iterSolid = make_changer()
+        H0, top0 = a.getTotalHeight(), float(a[-1].p.ztop)
+        budget = [1, 0]
+        steps = ["differential"] + [ctx.rng.choice(["percomp", "uniform", "isothermal", "differential-back"])
+                                    for _ in range(ctx.rng.randint(1, 3))]
+        T = 400.0
+        for k, mode in enumerate(steps):
+            case = {"assembly": "built:" + "/".join(kinds), "heights": heights, "mode": "built-" + mode, "step": k}
+            solids = [(ib, c) for ib, b in enumerate(a[:-1]) for c in iterSolid(b)]
+            comps = [c for _, c in solids]
+            if mode == "isothermal":
+                T += ctx.rng.choice([-50.0, 25.0, 100.0])
+                r = one_step(ctx, collect, a, a0, chg, snapshot, iterSolid, case, H0, top0, budget, "isothermal", T)
+            else:
+                if mode == "differential":
+                    pcts = [1.05 if c.name == "fuel" else 1.0 for c in comps]
+                elif mode == "differential-back":
+                    pcts = [1.0 / 1.05 if c.name == "fuel" else 1.0 for c in comps]
+                elif mode == "uniform":
+                    per = {ib: 1.0 + ctx.rng.randint(-8, 12) / 256.0 for ib in range(len(a))}
+                    pcts = [per[ib] for ib, _ in solids]
+                else:
+                    pcts = [1.0 + ctx.rng.randint(-6, 10) / 256.0 for _ in solids]
+                case["percents"] = pcts[:8]
+                r = one_step(ctx, collect, a, a0, chg, snapshot, iterSolid, case, H0, top0, budget, "prescribed", (comps, pcts))
+            if r is None:
+                break
+            pre, post = r
+            if mode in ("uniform",):
+                for ib in range(len(pre) - 1):
+                    for cp, cq in zip(pre[ib]["comps"], post[ib]["comps"]):
+                        if not fclose(cp["mass"], cq["mass"], 1e-9):
+                            ctx.fail("uniform-growth-mass-conserved", "all solids of a block growing alike keep their mass",
+                                     dict(case, block=ib, comp=cp["name"]), observed=cq["mass"], expected=cp["mass"])
+            ctx.case(("built", tuple(kinds), tuple(heights), k, mode), nontrivial=True)
+        ctx.count("built assemblies (subclassed / base-class shape stacks)")
+
+
 def run(ctx):
     collect = ([], [])
+    run_built(ctx, collect)
     run_rejects(ctx, collect)
     run_zero_celsius(ctx, collect)
     run_small_steps(ctx, collect)
@@ -552,7 +733,9 @@ def run(ctx):
                 "temperature field); sequences of 1-5 expansions on one deep copy; closed isothermal cycles through exactly "
                 "0.0 C (25-0-100-25, 0-50-0, 25-0-0-300-25) on every assembly type; 10-50 very small steps (L1/L0 = 1 +- "
                 "a few 1e-6, isothermal +0.25 C) with every clause after every step and an accumulated-drift clause; every "
-                "case is non-trivial (heights change); plus refused calls (non-positive factor, growth the dummy block "
+                "case is non-trivial (heights change); assemblies built through HexAssembly/HexBlock/component constructors "
+                "with HoledHexagon / HexHoledCircle targets above Hexagon / Circle components (and the reverse, and same-class "
+                "controls) under differential expansion, with linkage mutuality/symmetry clauses; plus refused calls (non-positive factor, growth the dummy block "
                 "cannot absorb, negative height of a thin block).")
 
 
